@@ -576,6 +576,14 @@ func TestReplay(t *testing.T) {
 			vs, _ := CheckSubstitution(c)
 			return vs
 		},
+		"TestSubstitutionPG": func(raw json.RawMessage) hx.Vs {
+			var c PGSubCase
+			if err := json.Unmarshal(raw, &c); err != nil {
+				return hx.Vs{{Sig: "harness:decode", Msg: err.Error()}}
+			}
+			vs, _ := CheckSubstitutionPG(c)
+			return vs
+		},
 		"TestSearchRewrite": func(raw json.RawMessage) hx.Vs {
 			var c SRCase
 			if err := json.Unmarshal(raw, &c); err != nil {
